@@ -255,6 +255,18 @@ def _(vm, a, ci):
     while isinstance(t0, Ref): t0 = vm.ref_get(t0)
     if isinstance(t0, (BStr, SymStr)) and isinstance(a[1], Adt) and a[1].ty.startswith('Range'):      # &[u8] view of text, sliced by a byte range
         from .std_str import slice_str
+        if isinstance(t0, BStr):
+            # bytes may be cut anywhere: only a cut on character boundaries is still (the byte view of) text; otherwise the plain bytes
+            n = t0.nbytes()
+            try: lo, hi = _range_bounds(a[1], n)
+            except Unmodelled: lo = hi = None
+            if isinstance(lo, int) and isinstance(hi, int):
+                if not (0 <= lo <= hi <= n): raise PanicEdge('panic', f'range {lo}..{hi} out of range for slice of length {n}')
+                if not (t0.is_boundary(lo) and t0.is_boundary(hi)):
+                    from .stdcheck import P as _P
+                    from .std_iter import drain
+                    bs = drain(vm, _P(vm, '<impl str>::bytes', t0))
+                    return SliceRef(Ref(Cell(HList(list(bs[lo:hi])))), 0, hi - lo)
         return slice_str(vm, t0, a[1])
     if isinstance(t0, BStr) and isinstance(a[1], int):          # one byte of the &[u8] view of text
         from .stdcheck import P as _P
